@@ -25,7 +25,7 @@ static bool inv(C& c)
         return false;
     if (!vf_wf_umap(c.m_keyed_elements))
         return false;
-    if (c.m_open_list_end > n || c.m_keyed_elements.m_size != c.m_open_list_end || c.m_keyed_elements.m_reserved < n)
+    if (c.m_open_list_end > n || c.m_keyed_elements.m_size != c.m_open_list_end || !c.m_keyed_elements.guaranteed(n))
         return false;
     bool seen[HCAP];
     for (size_t p = 0; p < n; ++p)
